@@ -1,16 +1,239 @@
-(* C18 -- MemoryPool.  Nothing but statements closed by `exact <lemma>` and Print Assumptions. *)
-From Coq Require Import List NArith Bool Lia.
-From PV Require Import Pool.ShiftsImpl Pool.Shifts Pool.PoolModel.
+(* C18 -- MemoryPool never double-supplies, never leaks, tolerates outliving handles.
+   Nothing but statements closed by `exact <lemma>` and Print Assumptions.
+
+   Vocabulary (coq/Pool/PoolModel.v, PoolInv.v, PoolProofs.v):
+     world        = id registry (next_id, objects : id |-> pool state), log of all allocator /
+                    deleter calls (elog, newest first), handles held by the client (held)
+     step w o     = one client operation o in {Create, Alloc, Drop, Destroy}; Alloc carries the
+                    allocator's answers (the oracle): Some pointer / None = it throws
+     reachable w  = w = run ops for some history ops (shorter than 2^64) during which the
+                    allocator honoured its contract, log_okb (elog w) = true: every pointer it
+                    returned was non-null and different from every block outstanding then
+     live_of log  = blocks (owner pool, pointer, bytes) obtained from an allocator and not yet
+                    passed to a deleter;  wblocks objs = blocks cached or handed out by live pools
+     req pl size  = max(size, minimum size of the pool);  ceil_log2 m = least s with m <= 2^s *)
+From Coq Require Import List NArith Bool Lia Permutation.
+From PV Require Import Pool.ShiftsImpl Pool.Shifts Pool.PoolModel Pool.PoolLemmas Pool.PoolInv
+  Pool.PoolProofs.
 From PV Require Gen.ShiftsGen.
 Import ListNotations.
 Local Open Scope N_scope.
 
-(* The function the pool uses for its size classes IS the one in /repo now. *)
+(* ---- calculate_shifts: the function in /repo NOW is the reviewed one, and it is ceil(log2) --- *)
 Theorem C18_gen_matches : ShiftsGen.prog = ShiftsImpl.reviewed_prog.
 Proof. exact gen_matches. Qed.
 Print Assumptions C18_gen_matches.
 
 Theorem C18_calculate_shifts_spec x : 0 < x < 2 ^ 64 ->
-  calculate_shifts x = ceil_log2 x.
-Proof. exact (calculate_shifts_spec x). Qed.
+  calculate_shifts x = ceil_log2 x /\ x <= 2 ^ ceil_log2 x /\ (forall s, x <= 2 ^ s -> ceil_log2 x <= s).
+Proof.
+  exact (fun H => conj (calculate_shifts_spec x H)
+                   (conj (ceil_log2_upper x (proj1 H)) (fun s => ceil_log2_least x s (proj1 H)))).
+Qed.
 Print Assumptions C18_calculate_shifts_spec.
+
+(* ---- the invariant holds after EVERY history ------------------------------------------------- *)
+Theorem C18_invariant_every_history ops :
+  N.of_nat (length ops) < 2 ^ 64 -> log_okb (elog (run ops)) = true -> Inv (run ops).
+Proof. exact (fun Hl Hlog => reachable_inv (run ops) (ex_intro _ ops (conj Hl (conj eq_refl Hlog)))). Qed.
+Print Assumptions C18_invariant_every_history.
+
+(* ---- size classes: 0 => null handle, above 2^63 => Error (both without any effect); otherwise
+        the block's size is the least power of two >= max(size, minimum), allocated_size reports
+        it, the block is recorded under that class and referenced by the returned handle ------- *)
+Theorem C18_size_class_spec w pid pl size o1 o2 :
+  reachable w -> lookup pid (objects w) = Some pl -> size < 2 ^ 64 ->
+  let m := req pl size in
+  let w' := fst (step w (Alloc pid size o1 o2)) in
+  let out := snd (step w (Alloc pid size o1 o2)) in
+  log_okb (elog w') = true ->
+  (size = 0 -> w' = w /\ out = OAlloc ANull 0) /\
+  (size <> 0 -> 2 ^ 63 < m -> w' = w /\ out = OAlloc AErr 0) /\
+  (size <> 0 -> m <= 2 ^ 63 ->
+     match out with
+     | OAlloc (AOk p) asz =>
+         asz = 2 ^ ceil_log2 m /\ m <= asz /\ (forall k, m <= 2 ^ k -> asz <= 2 ^ k) /\
+         In (pid, p) (held w') /\
+         exists pl', lookup pid (objects w') = Some pl' /\
+                     lookup p (supplied pl') = Some (ceil_log2 m)
+     | OAlloc AFail asz => asz = 0 /\ o1 = None /\ o2 = None
+     | _ => False
+     end).
+Proof. exact (fun H => size_class_spec w pid pl size o1 o2 (reachable_inv w H)). Qed.
+Print Assumptions C18_size_class_spec.
+
+(* every block a live pool keeps under class c -- cached or handed out -- was obtained from that
+   pool's allocator with exactly 2^c bytes and has not been passed to the deleter *)
+Theorem C18_block_size_is_class_size w pid pl p c :
+  reachable w -> In (pid, pl) (objects w) -> In (p, c) (pblocks pl) ->
+  In (pid, p, 2 ^ c) (live_of (elog w)).
+Proof. exact (fun H => block_size_is_class_size w pid pl p c (reachable_inv w H)). Qed.
+Print Assumptions C18_block_size_is_class_size.
+
+(* ---- no double supply: handles are pairwise different; two handles of live pools never carry
+        the same pointer; a referenced block is in no cache of any live pool; no block is cached
+        twice (across pools and classes) -------------------------------------------------------- *)
+Theorem C18_no_double_supply w : reachable w ->
+  NoDup (held w) /\
+  (forall pid1 pid2 p, In (pid1, p) (held w) -> In (pid2, p) (held w) ->
+     live_pool w pid1 -> live_pool w pid2 -> pid1 = pid2) /\
+  (forall pid p, In (pid, p) (held w) -> live_pool w pid ->
+     forall pid' pl' c, In (pid', pl') (objects w) -> ~ In p (cls (reserved pl') c)) /\
+  (forall pid pl pid' pl' c c' p, In (pid, pl) (objects w) -> In (pid', pl') (objects w) ->
+     In p (cls (reserved pl) c) -> In p (cls (reserved pl') c') -> pid = pid' /\ c = c').
+Proof. exact (fun H => no_double_supply w (reachable_inv w H)). Qed.
+Print Assumptions C18_no_double_supply.
+
+(* ---- reuse before allocate ---------------------------------------------------------------------- *)
+Theorem C18_reuse_before_allocate w pid pl size o1 o2 p rest :
+  reachable w -> lookup pid (objects w) = Some pl -> size < 2 ^ 64 -> size <> 0 ->
+  req pl size <= 2 ^ 63 ->
+  let c := ceil_log2 (req pl size) in
+  cls (reserved pl) c = p :: rest ->
+  let w' := fst (step w (Alloc pid size o1 o2)) in
+  snd (step w (Alloc pid size o1 o2)) = OAlloc (AOk p) (2 ^ c) /\
+  elog w' = elog w /\ held w' = (pid, p) :: held w /\ next_id w' = next_id w /\
+  exists pl', lookup pid (objects w') = Some pl' /\ cls (reserved pl') c = rest /\
+              (forall k, k <> c -> cls (reserved pl') k = cls (reserved pl) k) /\
+              min_size pl' = min_size pl.
+Proof. exact (fun H => reuse_before_allocate w pid pl size o1 o2 p rest (reachable_inv w H)). Qed.
+Print Assumptions C18_reuse_before_allocate.
+
+Theorem C18_release_caches_block w pid pl p c :
+  reachable w -> In (pid, p) (held w) -> lookup pid (objects w) = Some pl ->
+  lookup p (supplied pl) = Some c ->
+  let w' := fst (step w (Drop pid p)) in
+  snd (step w (Drop pid p)) = ODropped /\ elog w' = elog w /\ next_id w' = next_id w /\
+  ~ In (pid, p) (held w') /\
+  exists pl', lookup pid (objects w') = Some pl' /\ cls (reserved pl') c = p :: cls (reserved pl) c /\
+              min_size pl' = min_size pl /\ lookup p (supplied pl') = None.
+Proof. exact (fun H => release_caches_block w pid pl p c (reachable_inv w H)). Qed.
+Print Assumptions C18_release_caches_block.
+
+(* ---- allocator called only when the class has no cached block; on failure ALL cached blocks are
+        freed (every class, each once, in this order) and the call is repeated exactly once ------ *)
+Theorem C18_retry_once_after_release w pid pl size o1 o2 :
+  reachable w -> lookup pid (objects w) = Some pl -> size < 2 ^ 64 -> size <> 0 ->
+  req pl size <= 2 ^ 63 ->
+  let c := ceil_log2 (req pl size) in
+  cls (reserved pl) c = [] ->
+  let w' := fst (step w (Alloc pid size o1 o2)) in
+  let out := snd (step w (Alloc pid size o1 o2)) in
+  match o1 with
+  | Some p => out = OAlloc (AOk p) (2 ^ c) /\ elog w' = EvAlloc pid (2 ^ c) (Some p) :: elog w
+  | None =>
+      elog w' = EvAlloc pid (2 ^ c) o2 ::
+                rev (map (EvDelete pid) (concat (reserved pl))) ++ EvAlloc pid (2 ^ c) None :: elog w /\
+      out = match o2 with Some p => OAlloc (AOk p) (2 ^ c) | None => OAlloc AFail 0 end /\
+      held w' = match o2 with Some p => (pid, p) :: held w | None => held w end /\
+      exists pl', lookup pid (objects w') = Some pl' /\ (forall k, cls (reserved pl') k = []) /\
+        supplied pl' = match o2 with Some p => emplace p c (supplied pl) | None => supplied pl end
+  end.
+Proof. exact (fun H => retry_once_after_release w pid pl size o1 o2 (reachable_inv w H)). Qed.
+Print Assumptions C18_retry_once_after_release.
+
+(* ---- the deleter ------------------------------------------------------------------------------------
+   (1) it is only ever called on a block that is outstanding for the same pool (del_okb);
+   (2) outstanding blocks = exactly the blocks of the live pools (nothing is lost: no leak);
+   (3) per (pool, pointer): #obtained = #deleted + #outstanding;
+   (4) once a pool is gone (destroyed), #obtained = #deleted for each of its blocks: exactly once;
+   (5) no live pool => nothing outstanding. *)
+Theorem C18_deleter_exactly_once w : reachable w ->
+  del_okb (elog w) = true /\
+  Permutation (live_of (elog w)) (wblocks (objects w)) /\
+  (forall pid p, count (is_alloc pid p) (elog w) =
+                 (count (is_delete pid p) (elog w) + count (is_blk pid p) (live_of (elog w)))%nat) /\
+  (forall pid, ~ live_pool w pid ->
+     forall p, count (is_alloc pid p) (elog w) = count (is_delete pid p) (elog w)) /\
+  (objects w = [] -> live_of (elog w) = []).
+Proof. exact (fun H => deleter_exactly_once w (reachable_inv w H)). Qed.
+Print Assumptions C18_deleter_exactly_once.
+
+(* never while referenced, before the pool is destroyed: the only operation during which a block
+   referenced by a handle is passed to the deleter is the destruction of its own pool *)
+Theorem C18_deleter_never_while_referenced w o pid p : reachable w ->
+  In (EvDelete pid p) (new_events (elog w) (elog (fst (step w o)))) ->
+  In (pid, p) (held w) -> o = Destroy pid.
+Proof. exact (fun H => deleter_never_while_referenced w o pid p (reachable_inv w H)). Qed.
+Print Assumptions C18_deleter_never_while_referenced.
+
+(* what ~MemoryPool does: every block of the pool -- cached AND still referenced -- is passed to the
+   deleter exactly once (ps has no duplicates and is a permutation of the pool's blocks); the
+   handles stay with the client (they now dangle: they may only be dropped) *)
+Theorem C18_destroy_deletes_all w pid pl : reachable w -> lookup pid (objects w) = Some pl ->
+  let w' := fst (step w (Destroy pid)) in
+  exists ps, new_events (elog w) (elog w') = map (EvDelete pid) ps /\
+             Permutation ps (map fst (pblocks pl)) /\ NoDup ps /\
+             held w' = held w /\ next_id w' = next_id w /\ ~ live_pool w' pid /\
+             snd (step w (Destroy pid)) = ODestroyed.
+Proof. exact (fun H => destroy_deletes_all w pid pl (reachable_inv w H)). Qed.
+Print Assumptions C18_destroy_deletes_all.
+
+(* ---- handles that outlive their pool: dropping one changes nothing but the client's own set of
+        handles (no functor call, no pool touched -- even if a younger pool meanwhile owns a block
+        at the same address), raises nothing, and the invariant still holds ---------------------- *)
+Theorem C18_handles_outlive_pool_safe w pid p :
+  reachable w -> In (pid, p) (held w) -> ~ live_pool w pid ->
+  step w (Drop pid p) =
+    (mkWorld (next_id w) (objects w) (elog w) (remove_handle (pid, p) (held w)), ODropped) /\
+  ~ In (pid, p) (remove_handle (pid, p) (held w)) /\
+  (forall h, h <> (pid, p) -> (In h (remove_handle (pid, p) (held w)) <-> In h (held w))) /\
+  Inv (fst (step w (Drop pid p))).
+Proof. exact (fun H => handles_outlive_pool_safe w pid p (reachable_inv w H)). Qed.
+Print Assumptions C18_handles_outlive_pool_safe.
+
+(* ---- ids: in ANY history the ids handed out are 0, 1, 2, ... in creation order ------------------ *)
+Theorem C18_ids_unique_never_reused ops : N.of_nat (length ops) < 2 ^ 64 ->
+  let ids := created (snd (steps w0 ops)) in
+  ids = map N.of_nat (seq 0 (length ids)) /\ NoDup ids /\
+  next_id (run ops) = N.of_nat (length ids).
+Proof. exact (ids_unique_never_reused ops). Qed.
+Print Assumptions C18_ids_unique_never_reused.
+
+Theorem C18_ids_fresh w : reachable w -> next_id w + 1 < 2 ^ 64 ->
+  (forall pid p, In (pid, p) (held w) -> pid < next_id w) /\
+  (forall pid, live_pool w pid -> pid < next_id w) /\
+  (forall mn, mn < 2 ^ 64 -> snd (step w (Create mn)) = OCreated (next_id w) /\
+                             live_pool (fst (step w (Create mn))) (next_id w)).
+Proof. exact (fun H => ids_fresh w (reachable_inv w H)). Qed.
+Print Assumptions C18_ids_fresh.
+
+Theorem C18_dead_id_stays_dead ops w pid : next_id w + N.of_nat (length ops) < 2 ^ 64 ->
+  pid < next_id w -> ~ live_pool w pid -> ~ live_pool (run_from w ops) pid.
+Proof. exact (dead_id_stays_dead ops w pid). Qed.
+Print Assumptions C18_dead_id_stays_dead.
+
+(* ---- non-vacuity: a concrete history meets the hypotheses ------------------------------------- *)
+(* pool 0: two blocks handed out and released (cached), one reused, an allocation that fails once
+   (the cached block 2 is freed, the retry gets 3); pool 1 then obtains the freed address 2;
+   pool 0 is destroyed while the handles (0,1) and (0,3) are still held. *)
+Definition ex_ops : list op :=
+  [Create 0; Alloc 0 5 (Some 1) None; Alloc 0 300 (Some 2) None; Drop 0 1; Drop 0 2;
+   Alloc 0 7 None None; Alloc 0 17 None (Some 3); Create 16; Alloc 1 1 (Some 2) None; Destroy 0].
+
+Example C18_nonvacuous_reachable :
+  reachable (run ex_ops) /\ reachable (run (firstn 5 ex_ops)) /\
+  held (run ex_ops) = [(1, 2); (0, 3); (0, 1)] /\
+  map fst (objects (run ex_ops)) = [1] /\ next_id (run ex_ops) = 2 /\
+  live_of (elog (run ex_ops)) = [(1, 2, 16)] /\
+  created (snd (steps w0 ex_ops)) = [0; 1].
+Proof.
+  split; [exists ex_ops; vm_compute; auto|]. split; [exists (firstn 5 ex_ops); vm_compute; auto|].
+  vm_compute. auto.
+Qed.
+
+(* hypotheses of reuse / retry / outliving-handle theorems are met in states of that history *)
+Example C18_nonvacuous_cases :
+  (exists pl, lookup 0 (objects (run (firstn 5 ex_ops))) = Some pl /\
+              cls (reserved pl) (ceil_log2 (req pl 7)) = [1] /\ cls (reserved pl) 9 = [2]) /\
+  (exists pl, lookup 0 (objects (run (firstn 6 ex_ops))) = Some pl /\
+              cls (reserved pl) (ceil_log2 (req pl 17)) = [] /\ concat (reserved pl) = [2]) /\
+  (In (0, 3) (held (run ex_ops)) /\ lookup 0 (objects (run ex_ops)) = None) /\
+  snd (steps w0 ex_ops) =
+    [OCreated 0; OAlloc (AOk 1) 8; OAlloc (AOk 2) 512; ODropped; ODropped; OAlloc (AOk 1) 8;
+     OAlloc (AOk 3) 32; OCreated 1; OAlloc (AOk 2) 16; ODestroyed].
+Proof.
+  split; [eexists; split; [vm_compute; reflexivity|vm_compute; auto]|].
+  split; [eexists; split; [vm_compute; reflexivity|vm_compute; auto]|].
+  vm_compute. auto.
+Qed.
